@@ -39,7 +39,7 @@ ASSUMPTIONS = [
     "the write journal sees every file mutation made through libc (validated each run: replaying the "
     "whole journal reproduces the run directory byte for byte)",
     "hard kills inside a RESUMED run: at every prefix of the resumed process's own write journal for the start images "
-    "chosen in phase 2b (after each checkpoint publication and half-way to the next one; configurations of level >= 1), "
+    "chosen in phase 2b (after each checkpoint publication and just before the next one; configurations of level >= 1), "
     "at instrumented program points elsewhere",
 ]
 
@@ -367,7 +367,7 @@ def explore_all(chk, spaces, tier):
         if c[0] in ("step", "save_checkpoint", "os_replace"):
             sp.boundary.add(r["key"])
     # phase 2b: the physical write journal of RESUMED runs.  From chosen crash images that hold a checkpoint (right after
-    # each publication: nothing to drop; and half-way to the next publication: rows and frames beyond the checkpoint are
+    # each publication: nothing to drop; and just before the next publication: rows and frames beyond the checkpoint are
     # on disk and the resumed process has to drop them first) the real run_from_checkpoint is executed in a subprocess under
     # the write journal; every prefix of THAT journal applied to the image it started from (and every page split of a
     # multi-page last write) is a depth-2 state = SIGKILL of the resumed process at every possible instant, including
@@ -382,9 +382,12 @@ def explore_all(chk, spaces, tier):
         for j, n in enumerate(pubs):
             cand.append(n)
             nxt = pubs[j + 1] if j + 1 < len(pubs) else len(ops)
-            m = (n + nxt) // 2
-            while m < nxt and _is_burst(ops, m):
-                m += 1
+            # just before the next publication (or the end of the run): all streams have been flushed up to the next
+            # checkpoint step while the checkpoint on disk is still the old one = the most stale content a resumed process
+            # can meet (half-way images hold no such content: the text streams leave the process only when flushed)
+            m = nxt - 1
+            while m > n and _is_burst(ops, m):
+                m -= 1
             if n < m < nxt:
                 cand.append(m)
         if tier == "quick" and not sp.cfg.get("journal_resume_all"):
